@@ -278,6 +278,19 @@ fn run_enum(plan: &Value, rec: &mut Rec) {
                     if let Err(e) = sig.verify(&key.public, &t) {
                         return Err(format!("text signature over \"{show}\" does not verify over {name}: {e}"));
                     }
+                    // the same signature in front of a literal packet with that text (old-style signed message,
+                    // no one-pass packet): the message reader hashes the literal's bytes in text mode too
+                    let mut lit = vec![b'b', 0, 0, 0, 0, 0];
+                    lit.extend_from_slice(&t);
+                    let sig_body = pgp::ser::Serialize::to_bytes(&sig.signature).map_err(|e| e.to_string())?;
+                    let mut msg = crate::model::framer::frame(2, &sig_body, &crate::model::framer::LenForm::NewMinimal).ok_or("frame")?;
+                    msg.extend_from_slice(&crate::model::framer::frame(11, &lit, &crate::model::framer::LenForm::NewMinimal).ok_or("frame")?);
+                    let mut m = pgp::composed::Message::from_bytes(&msg[..]).map_err(|e| format!("prefixed message: {e}"))?;
+                    let mut out = Vec::new();
+                    std::io::Read::read_to_end(&mut m, &mut out).map_err(|e| format!("prefixed message: {e}"))?;
+                    if let Err(e) = m.verify(&key.public) {
+                        return Err(format!("text signature over \"{show}\" in front of a literal packet holding {name} does not verify: {e}"));
+                    }
                 }
                 let mut t = s.clone();
                 t.push(b'\n');
